@@ -88,6 +88,8 @@ def jobs(tier, seed):
                         pass
                     else:
                         o["images"] = {}
+                    if (pi + si + seed) % 3 == 0:
+                        o["owner_arch"] = "x86_64" if arch == "src" else "src"
                     for u in tops + kids:
                         o["paths"][u] = list(popt) if u in tops else list(PATH_OPTIONS[(pi + 1 + len(u)) % len(PATH_OPTIONS)])
                     out.append({"harness": "general_mirrors", "params": {"shape": shape, "opts": o, "focus": C04._focus(shape, o, k), "main_variant": mv,
@@ -100,6 +102,7 @@ META = {
     "expected_covers": {"general_mirrors": ["written"]},
     "assumptions": C04.META["assumptions"] + [
         "the written text is read by an independent configparser.ConfigParser(interpolation=None, optionxform=str) through the same INI stub",
+        "in a third of the jobs the Variant objects were created for another TreeInfo (of the other kind: source vs binary) and then added to the tree that is written",
         "main variant: none (default = alphabetically first top-level variant), each top-level variant, or each nested variant by its UID; float timestamps from a pool, integer timestamps symbolic",
     ],
 }
